@@ -37,10 +37,13 @@ def run(tier, seed):
         recipes.append({"fn": "typing", "cls": cspec, "seq": low, "twin": {"by": "case", "mask": rng.choice(masks(n, rng))}})
     for reg, key, seq, cspec in tc.registry_members(rng, 3 if q else 40):
         recipes.append({"fn": "typing", "cls": cspec, "seq": seq, "twin": {"by": "case", "mask": rng.choice(["1", "01", "0010"])}, "plasmid": key})
-    traces = [exec_typing(r) for r in recipes]
+    # typing through characterize (the way registries type the files of a directory): same type in every spelling
+    recipes += tc.characterize_twins(rng, q, "case")
+    from ..typing_drv import exec_characterize
+    traces = [exec_characterize(r) if r["fn"] == "characterize" else exec_typing(r) for r in recipes]
     for r, t in zip(recipes, traces):
         if t[0]["res"]["valid"]:
-            run.distinct.add((t[0]["cls"]["name"], r["seq"], r["twin"]["mask"]))
+            run.distinct.add((t[0].get("cls", {}).get("name", t[0].get("base")), r["seq"], r["twin"]["mask"]))
     run.add_sample({"recipe": recipes[0], "event": traces[0][0]})
     run.validate("typing-case", "Trace_Typing", traces, recipes, sigfn=tc.typing_sig, describe=tc.typing_describe)
     try:
@@ -54,4 +57,5 @@ def run(tier, seed):
 
 def replay_case(rec):
     from ..core import generic_replay
-    return generic_replay(rec, exec_typing)
+    from ..typing_drv import exec_characterize
+    return generic_replay(rec, lambda r: exec_characterize(r) if r.get("fn") == "characterize" else exec_typing(r))
